@@ -205,6 +205,14 @@ class State:
             return 'FAIL delete %r: got %r' % (s, _short(named(c)))
         return self._frame(h, want) or 'ok'
 
+    def o_post_delsorder(self, h, k):
+        """deleteSimplices(simplicesOfOrder(k)) removes exactly the simplices of order >= k"""
+        c = self.C(h); old = self.snaps[h]; k = int(k)
+        want = {t: b for t, b in old['basis'].items() if old['orders'][t] < k}
+        if named(c) != want:
+            return 'FAIL deleting every simplex of order %d left %r' % (k, _short(sorted(map(repr, set(named(c)) - set(want)))))
+        return self._frame(h, want) or 'ok'
+
     def o_post_restrict(self, h, bs):
         c = self.C(h); old = self.snaps[h]; keep = set(self.ex.names(bs))
         want = {t: b for t, b in old['basis'].items() if b <= keep}
@@ -373,6 +381,13 @@ class State:
                     return 'FAIL simplexWithBasis(%r) = %r, expected %r' % (sub, got, want)
                 if B.containsSimplexWithBasis(c, list(sub)) != (want is not None):
                     return 'FAIL containsSimplexWithBasis(%r)' % (sub,)
+        # a list with a repeated point is the basis of no simplex
+        for r in (2, 3):
+            for sub in itertools.combinations(pts, r - 1):
+                q = list(sub) + [sub[0]]
+                got = B.simplexWithBasis(c, q)
+                if got is not None or B.containsSimplexWithBasis(c, q):
+                    return 'FAIL simplexWithBasis(%r) = %r for a list with a repeated point' % (q, got)
         # faces of a missing simplex: None
         for r in range(2, min(len(pts), 4) + 1):
             for sub in itertools.combinations(pts, r):
@@ -1122,7 +1137,11 @@ class State:
                     pass
             except Exception:
                 pass
-        if full_state(c) != before or self.ex.obs(c) != nxt:
+        try:
+            changed = full_state(c) != before or self.ex.obs(c) != nxt
+        except Exception as e:
+            return 'FAIL after changing containers returned by queries the complex cannot be inspected any more: %r' % (e,)
+        if changed:
             return 'FAIL changing a container returned by a query changed the complex'
         return 'ok'
 
